@@ -14,14 +14,14 @@ import (
 )
 
 type Clause struct {
-	Kind string // requires, ensures, invariant, decreases, assert
-	Tags []string
-	Loop int // loop ordinal for invariant/decreases
+	Kind   string // requires, ensures, invariant, decreases, assert
+	Tags   []string
+	Loop   int    // loop ordinal for invariant/decreases
 	Callee string // atcall: suffix of the callee's name
-	E    *Expr
-	Src  string
-	File string
-	Line int
+	E      *Expr
+	Src    string
+	File   string
+	Line   int
 }
 
 type Let struct {
@@ -39,7 +39,7 @@ type Contract struct {
 	Ensures  []*Clause
 	Invs     []*Clause
 	Decs     []*Clause
-	AtCalls []*Clause
+	AtCalls  []*Clause
 	Prefers  []*Clause
 	Crash    []*Clause
 	Hints    []*Clause // instances of manual axioms: `hint#N axiomName(args...)`
@@ -68,28 +68,28 @@ type GhostVar struct {
 }
 
 type Axiom struct {
-	Name   string
-	E      *Expr
-	Src    string
-	Manual bool // never added as a quantified formula: instantiated only through `hint` clauses
+	Name     string
+	E        *Expr
+	Src      string
+	Manual   bool // never added as a quantified formula: instantiated only through `hint` clauses
 	Computed bool // a ground fact about string literals, CHECKED by evaluating it (not an assumption)
 }
 
 type Specs struct {
-	Contracts map[string]*Contract
-	Funcs     map[string]*SpecFunc
-	FuncOrder []string
-	Ghosts    map[string]*GhostVar
-	GhostOrd  []string
-	Axioms    []*Axiom
-	Consts    map[string]*SpecConst
-	Sentinels []string          // full names of package-level error vars treated as distinct constants
-	NoEffect  []string          // patterns of functions whose calls have no effect (results havocked)
-	Lemmas    []*Lemma          // pure SMT lemmas over the vocabulary
-	Callers   []*CallersRule
-	Guards    []*GuardRule
+	Contracts  map[string]*Contract
+	Funcs      map[string]*SpecFunc
+	FuncOrder  []string
+	Ghosts     map[string]*GhostVar
+	GhostOrd   []string
+	Axioms     []*Axiom
+	Consts     map[string]*SpecConst
+	Sentinels  []string // full names of package-level error vars treated as distinct constants
+	NoEffect   []string // patterns of functions whose calls have no effect (results havocked)
+	Lemmas     []*Lemma // pure SMT lemmas over the vocabulary
+	Callers    []*CallersRule
+	Guards     []*GuardRule
 	ZeroGhosts []ZeroGhost
-	Imports   map[string]string // alias -> path (global across spec files)
+	Imports    map[string]string // alias -> path (global across spec files)
 }
 
 // ZeroGhost: a freshly allocated value of Type has ghost map Ghost[ref] == Value (an expression)
